@@ -480,6 +480,11 @@ func (w *worker) group(s *snapshot, filter *vnode.Node, mr methodRef, actorIdx i
 						same = false
 					}
 				}
+				// a public key and the signature made with it are a pair as well: value j of one belongs to value j of the other
+				// (the genesis key with its signature, another key with its signature, ...)
+				if m.Inputs[i].Name == "publicKey" && m.Inputs[k].Name == "signature" {
+					same = true
+				}
 				if !same {
 					continue
 				}
